@@ -11,23 +11,24 @@ class ModularMixin:
     def call_modular(self, fi, C, args, kwargs, node, decreases=False):
         loc = self.bind_args(fi, args, kwargs, node)
         frame = Frame(None, dict(loc), fi.module)
+        from .spec import unproved_clauses
+        unproved = unproved_clauses()
         self.frames.append(frame)
         saved = (self.old_heap, self.old_locals, self.old_ghost)
         self.modular_used.add(fi.qualname)
         try:
             for g, d in C.ghost.items():
-                frame.locals[g] = self.sym_value(d, g)
+                frame.locals[g] = C.ghost_call[g](self, frame.locals) if g in C.ghost_call else self.sym_value(d, g)
             for name, expr in C.let.items():
                 frame.locals[name] = self.spec_eval(ast.parse(expr, mode='eval').body)
             if decreases:
                 m = zint(self.int_of(self.spec_eval(ast.parse(C.decreases, mode='eval').body)))
                 goal = z3.And(m >= 0, m < zint(self.entry_measure))
-                self.callsite_obligations.append(('decreases@%s:%s' % (fi.name, getattr(node, 'lineno', '?')), goal,
-                                                  '0 <= (%s) < its value on entry' % C.decreases, C.props))
+                self.emit_obligation('decreases@%s:%s' % (fi.name, getattr(node, 'lineno', '?')), goal,
+                                     '0 <= (%s) < its value on entry' % C.decreases, C.props)
             for cl in C.requires:
                 goal = self.spec_bool(cl.ast)
-                self.callsite_obligations.append(
-                    ('%s@%s:%s' % (cl.label, fi.name, getattr(node, 'lineno', '?')), goal, cl.expr, cl.props or C.props))
+                self.emit_obligation('%s@%s:%s' % (cl.label, fi.name, getattr(node, 'lineno', '?')), goal, cl.expr, cl.props or C.props)
             self.old_heap = self.heap.snapshot()
             self.old_locals = dict(frame.locals)
             self.old_ghost = {'g_enc': self.g_enc, 'g_dec': self.g_dec, 'g_nframes': self.g_nframes, 'g_ngoaway': self.g_ngoaway, 'g_nencode': self.g_nencode}
@@ -60,6 +61,9 @@ class ModularMixin:
                 for cl in C.ensures:
                     if C.assume_only is not None and cl.label not in C.assume_only:
                         continue
+                    if '%s::ensures[%s]' % (fi.qualname, cl.label) in unproved:
+                        self.unproved_skipped.add('%s::ensures[%s]' % (fi.qualname, cl.label))
+                        continue            # an open finding says this clause fails on the real code: never assumed
                     f = self.spec_bool(cl.ast)
                     if cl.when_ast is not None:
                         f = z3.Implies(self.spec_bool(ast.Call(func=ast.Name(id='old', ctx=ast.Load()), args=[cl.when_ast], keywords=[])), f)
@@ -71,6 +75,9 @@ class ModularMixin:
             exc = self.make_exception(rc.exc, node)
             frame.locals['exc'] = exc
             for cl in rc.ensures + C.on_raise:
+                if '%s::on_raise[%s]' % (fi.qualname, cl.label) in unproved:
+                    self.unproved_skipped.add('%s::on_raise[%s]' % (fi.qualname, cl.label))
+                    continue
                 self.assume_spec(self.spec_bool(cl.ast))
             raise PyRaise(exc, self.origin(node))
         finally:
